@@ -69,6 +69,10 @@ def lookup_cases(tier):
             yield {"t": "iso", "obj": n, "kind": kind, "tier": tier}
     yield {"t": "uniq", "tier": tier}
     yield {"t": "exports", "tier": tier}
+    # species and lines that arrive BY VALUE from another interpreter (multiprocessing spawn, a results file): equal to the local
+    # objects, so they must hash like them and find them in dictionaries.  String hashes are salted per interpreter.
+    for hs in ("1", "2", "random"):
+        yield {"t": "foreign", "hashseed": hs}
     names = [n for n, _ in SPECIES]
     B = 24
     blocks = [names[i:i + B] for i in range(0, len(names), B)]
@@ -177,6 +181,40 @@ def run_lookup(case, ctx):
         for n, s in SPECIES:
             ctx.check(getattr(A, n, None) is s, "exports", "cherab.core.atomic.%s is not elements.%s" % (n, n))
             ctx.check(n == s.name, "exports", "attribute %s holds species named %r" % (n, s.name))
+    elif t == "foreign":
+        import os, pickle, subprocess, sys
+        from .. import VERIF_DIR
+        code = ("import vf, sys, pickle; vf.bootstrap_repo()\n"
+                "from cherab.core.atomic import elements as E, Line\n"
+                "names = sorted(n for n in dir(E) if type(getattr(E, n)).__name__ in ('Element', 'Isotope'))\n"
+                "sp = [getattr(E, n) for n in names]\n"
+                "lines = [Line(s, min(1, s.atomic_number), (3, 2)) for s in sp[::7]]\n"
+                "sys.stdout.buffer.write(pickle.dumps((names, sp, lines)))\n")
+        env = dict(os.environ, PYTHONHASHSEED=case["hashseed"])
+        pr = subprocess.run([sys.executable, "-c", code], cwd=VERIF_DIR, env=env, stdout=subprocess.PIPE, stderr=subprocess.PIPE, timeout=600)
+        if pr.returncode != 0:
+            raise RuntimeError("foreign interpreter failed: %s" % pr.stderr.decode()[-800:])      # harness error, not a violation
+        with ctx.cut("unpickle"):
+            names, sp, lines = pickle.loads(pr.stdout)
+        local = {s_: n for n, s_ in SPECIES}
+        for n, f in zip(names, sp):
+            here = BYNAME.get(n)
+            if here is None:
+                continue
+            with ctx.cut("eq/hash"):
+                eq, ne, hf, hh = (f == here), (f != here), hash(f), hash(here)
+                found = local.get(f)
+                inset = f in {here}
+            ctx.check(eq and not ne, "foreign-eq", lambda: "%s from another interpreter: == gives %r, != gives %r" % (n, eq, ne))
+            ctx.check(hf == hh, "foreign-hash", lambda: "%s from another interpreter (PYTHONHASHSEED=%s) equals the local object but hashes "
+                      "%r instead of %r" % (n, case["hashseed"], hf, hh))
+            ctx.check(found == n and inset, "foreign-dict", lambda: "%s from another interpreter is not found in a dictionary / set keyed by the "
+                      "local object (dict gives %r)" % (n, found))
+        for fl in lines:
+            with ctx.cut("eq/hash"):
+                mine = Line(BYNAME[fl.element.name], fl.charge, (3, 2))
+                ok = (fl == mine) and hash(fl) == hash(mine) and ({mine: 1}.get(fl) == 1)
+            ctx.check(ok, "foreign-line", lambda: "Line of %s from another interpreter: == %r, hashes %r / %r" % (fl.element.name, fl == mine, hash(fl), hash(mine)))
     elif t == "pairs":
         for an in case["a"]:
             a = BYNAME[an]
